@@ -488,6 +488,61 @@ def hostkey_nego_worker(job):
     return acc
 
 
+def hostcert_nego_worker(job):
+    """servers whose host key comes with an OpenSSH host certificate: the certificate algorithm is the first on the
+    client's list the server can do, and the exchange hash is signed with the signature algorithm that
+    certificate algorithm names (rsa-sha2-512-cert-v01 -> rsa-sha2-512, never the SHA-1 ssh-rsa)"""
+    acc = corder_acc = core.Acc()
+    corder, keytype = job
+    ca = P.key('hostca')
+    if keytype == 'rsa':
+        hk = P.key('host-rsa', 'ssh-rsa', key_size=2048)
+    elif keytype == 'ecdsa':
+        hk = P.key('host-ec', 'ecdsa-sha2-nistp256')
+    else:
+        hk = P.key('host')
+    cert = ca.generate_host_certificate(hk, 'h', principals=['127.0.0.1', 'localhost'])
+    kh = ('@cert-authority * ' + ca.export_public_key('openssh').decode() + '\n* ' + hk.export_public_key('openssh').decode() + '\n').encode()
+    ed = HandshakeEditor('cs', None, 0, None)
+    obs, ed = run('curve25519-sha256', ed, sopts=dict(server_host_keys=[(hk, cert)]),
+                  copts=dict(server_host_key_algs=corder, known_hosts=kh))
+    cert_algs = {'rsa': ['rsa-sha2-256-cert-v01@openssh.com', 'rsa-sha2-512-cert-v01@openssh.com', 'ssh-rsa-cert-v01@openssh.com'],
+                 'ecdsa': ['ecdsa-sha2-nistp256-cert-v01@openssh.com'], 'ed25519': ['ssh-ed25519-cert-v01@openssh.com']}[keytype]
+    plain_algs = {'rsa': ['rsa-sha2-256', 'rsa-sha2-512', 'ssh-rsa'], 'ecdsa': ['ecdsa-sha2-nistp256'], 'ed25519': ['ssh-ed25519']}[keytype]
+    can = set(cert_algs) | set(plain_algs)
+    expected = next((a for a in corder if a in can), None)
+    used = sig = None
+    for t, p in ed.observed['sc']:
+        if t == 31:
+            blob_len = struct.unpack('>I', p[1:5])[0]
+            used = p[9:9 + struct.unpack('>I', p[5:9])[0]].decode()
+            rest = p[5 + blob_len:]
+            f_len = struct.unpack('>I', rest[:4])[0]
+            sigblob = rest[4 + f_len + 4:]
+            sig = sigblob[4:4 + struct.unpack('>I', sigblob[:4])[0]].decode()
+    viol = []
+    want_sig = None
+    if expected is not None:
+        want_sig = expected.replace('-cert-v01@openssh.com', '')
+        want_blob = expected if expected in cert_algs else {'rsa': 'ssh-rsa'}.get(keytype, expected)
+        if expected.startswith('rsa-sha2') and expected in cert_algs:
+            want_blob = expected          # the certificate blob is re-labelled with the negotiated name
+    if expected is None:
+        if obs['client_ok']:
+            viol.append(('completed-without-common-alg', 'client order %r, key type %s' % (corder, keytype)))
+    elif not obs['client_ok']:
+        viol.append(('failed-with-common-alg', 'client order %r key type %s: client=%s server=%s' % (corder, keytype, obs['client_exc'], obs['server_exc'])))
+    else:
+        if sig != want_sig:
+            viol.append(('signature-algorithm-not-the-negotiated-one', 'client order %r, %s host key with certificate: negotiated %r, the exchange '
+                         'hash is signed with %r (host key blob type %r)' % (corder, keytype, expected, sig, used)))
+    acc.add(core.digest(('hostcert', tuple(corder), keytype, used, sig)), transitions=1,
+            sample={'category': 'hostkey+cert', 'client': corder, 'key': keytype, 'blob_type': used, 'signature': sig} if keytype == 'rsa' and len(corder) == 3 else None)
+    for k, det in viol:
+        acc.violation('nego:%s:hostcert' % k, det, {'kind': 'hostcert', 'corder': corder, 'keytype': keytype})
+    return acc
+
+
 def main(tier, seed):
     t0 = core.now()
     ks = kex_list(tier)
@@ -505,6 +560,10 @@ def main(tier, seed):
     hj = [(list(c), list(s)) for c in itertools.permutations(hk_alpha, 3) for s in itertools.permutations(hk_alpha, 2)]
     hj += [(list(c), list(s)) for c in itertools.permutations(hk_alpha, 2) for s in itertools.permutations(hk_alpha, 3)]
     acc.merge(core.pmap(hostkey_nego_worker, core.rotate(hj, seed), chunksize=8))
+    calpha = ['rsa-sha2-512-cert-v01@openssh.com', 'rsa-sha2-256-cert-v01@openssh.com', 'ssh-rsa-cert-v01@openssh.com', 'rsa-sha2-256',
+              'ssh-ed25519-cert-v01@openssh.com', 'ecdsa-sha2-nistp256-cert-v01@openssh.com']
+    cj = [(list(c), kt) for n in (1, 2, 3) for c in itertools.permutations(calpha, n) for kt in ('rsa', 'ecdsa', 'ed25519')]
+    acc.merge(core.pmap(hostcert_nego_worker, core.rotate(cj, seed), chunksize=8))
     aj = [(cat, role, l) for cat in ACATS for role in ('server', 'client') for l in sublists(ACATS[cat][0])]
     acc.merge(core.pmap(asym_worker, core.rotate(aj, seed)))
     rule = ('for each of %d non-GSS kex methods and each direction: edits of the version line (software '
@@ -514,7 +573,7 @@ def main(tier, seed):
             '(thorough: every byte), truncation, trailing byte, first field set to 0/1/all-ones/short); the '
             'handshake must not complete on either side.  Negotiation: every ordered pair of non-empty '
             'permutation sub-lists of a 3-algorithm alphabet for kex, cipher, MAC, compression and host key '
-            'algorithm through a real handshake; cipher, MAC and compression also with different lists for the two '
+            'algorithm through a real handshake (host keys with and without a host certificate: the signature algorithm is the negotiated one); cipher, MAC and compression also with different lists for the two '
             'directions, offered by the independent peer to a real server and to a real client' % len(ks))
     return core.finish(PROP, tier, seed, 'fault_enumeration', acc, t0, rule,
                        {'kex_methods': ks, 'edit_execs': n_edit,
@@ -531,6 +590,8 @@ def replay(rep):
         acc.violations = [v for v in full.violations if v['replay']['slist'] == r['slist']]
     elif r['kind'] == 'hostkey':
         acc = hostkey_nego_worker((r['corder'], r['sorder']))
+    elif r['kind'] == 'hostcert':
+        acc = hostcert_nego_worker((r['corder'], r['keytype']))
     elif r['kind'] == 'asym':
         acc = asym_worker((r['cat'], r['role'], r['l_cs']))
     else:
